@@ -430,6 +430,18 @@ class NextImpl(Contract):
                 ('queued-depths-nonneg', forall([j], z3.Implies(z3.And(0 <= j, j < ag.len), z3.Select(ag.b, j) >= 0),
                                                 patterns=[z3.Select(ag.b, j)]))]
 
+    def on_vector_op(self, eng, st, op, old, new):
+        from ..cxx.model import PairVec
+        if op == 'pop_back' and isinstance(old, PairVec):
+            st.ghost['agenda_pops'] = st.ghost.get('agenda_pops', 0) + 1
+
+    def on_python_call(self, eng, st, what, line):
+        # C17 (ownership of work items): the node that is being expanded has been taken off the shared agenda before any
+        # Python code can run - another caller of next() (a second thread, or re-entrantly from a callback) can then never
+        # be handed the same node, and an exception from the callback cannot leave it to be expanded twice
+        eng.oblige(st, 'IV', 'L3:agenda-item-is-taken-off-the-agenda-before-python-code-can-run',
+                   z3.BoolVal(st.ghost.get('agenda_pops', 0) >= 1), line)
+
     def call_hook(self, eng, st, name, args_n, n):
         if name == 'GetKind':
             line = n.get('line')
